@@ -815,6 +815,7 @@ class World:
     # ---- snapshot/restore of class-level and module-level mutable state
     def snapshot(self):
         self._snap = self.take_snapshot()
+        self._lru_snap = [(m, list(m)) for m in getattr(self, "lru_memos", [])]
 
     def take_snapshot(self):
         snap = []
@@ -840,6 +841,10 @@ class World:
             d.clear()
             for k, v in s.items():
                 d[k] = _deepcopy_state(v)
+        # memos of functools.cache / lru_cache wrappers are interpreter state too: back to what they held at the snapshot
+        saved = {id(m): c for m, c in getattr(self, "_lru_snap", [])}
+        for m in getattr(self, "lru_memos", []):
+            m[:] = saved.get(id(m), [])
 
     def reset_run(self, choices=()):
         self.reset_state()
